@@ -650,6 +650,9 @@ def run_program(case, only_last=False, only_wrapper=None, only_op=None, post=Non
                     except AttributeError:
                         outs.append("skip")
                         roots.append(_NOROOT)
+                    except Exception as e:   # noqa  (a namedtuple as deferred default: copy_value raises TypeError)
+                        outs.append(classify_exc(e))
+                        roots.append(_NOROOT)
             elif kind == "setattr":
                 o = roots[op["root"]] if op["root"] < len(roots) else _NOROOT
                 c = children(o) if o is not _NOROOT else None
